@@ -214,7 +214,7 @@ func runWp(cfg wpCfg) (*wpRun, map[string]int) {
 					k := []byte(fmt.Sprintf("k%06d", id))
 					keys = [][]byte{k}
 					wr.byKey.Store(string(k), id)
-					wr.log(wpEvent{kind: "call", w: id, a: uint64(merge), b: b2u(wo.Sync)})
+					wr.log(wpEvent{kind: "call", w: id, a: uint64(merge), b: b2u(wo.Sync), c: 1})
 					err = db.Put(k, val, wo)
 				} else {
 					b := new(leveldb.Batch)
@@ -235,7 +235,7 @@ func runWp(cfg wpCfg) (*wpRun, map[string]int) {
 					viaTx = ilen > cfg.Opts.WriteBuffer && !cfg.Opts.DisableLargeBatchTx
 					if !viaTx {
 						wr.byBat.Store(b, id)
-						wr.log(wpEvent{kind: "call", w: id, a: uint64(merge), b: b2u(wo.Sync)})
+						wr.log(wpEvent{kind: "call", w: id, a: uint64(merge), b: b2u(wo.Sync), c: uint64(b.Len())})
 					}
 					before, blen := append([]byte(nil), b.Dump()...), b.Len()
 					err = db.Write(b, wo)
@@ -316,12 +316,25 @@ func runWp(cfg wpCfg) (*wpRun, map[string]int) {
 	groupOf := map[int]int{} // member → leader
 	rets := map[int]string{}
 	wantSync := map[int]bool{}
+	nrec := map[int]uint64{}
 	for i, e := range evs {
 		stats[e.kind]++
 		switch e.kind {
 		case "call":
 			wantSync[e.w] = e.b == 1
+			nrec[e.w] = e.c
 		case "group":
+			// a group consists of its leader and the writers it accepted, nothing else: the number of records it
+			// journals (and of sequence numbers it consumes) is the sum of theirs
+			if leader != -1 {
+				want := nrec[leader]
+				for _, m := range group {
+					want += nrec[m]
+				}
+				if e.b != want {
+					wr.fail("group:record-count", fmt.Sprintf("event %d: the group led by call %d (members %v) journals %d records at sequence %d, its members issued %d", i, leader, group, e.b, e.a, want))
+				}
+			}
 			// C04 through the merge: a group is journalled with Sync as soon as its leader or any merged member asked for it
 			if leader != -1 && !cfg.Opts.NoSync && e.s != "sync" {
 				for _, m := range append([]int{leader}, group...) {
